@@ -32,6 +32,44 @@ macro_rules! harness_mp {
     };
 }
 
+#[cfg(feature = "c01")]
+pub mod c01;
+#[cfg(feature = "c02")]
+pub mod c02;
+#[cfg(feature = "c03")]
+pub mod c03;
 #[cfg(feature = "c04")]
 pub mod c04;
+#[cfg(feature = "c05")]
+pub mod c05;
+#[cfg(feature = "c06")]
+pub mod c06;
+#[cfg(feature = "c07")]
+pub mod c07;
+#[cfg(feature = "c08")]
+pub mod c08;
+#[cfg(feature = "c09")]
+pub mod c09;
+#[cfg(feature = "c10")]
+pub mod c10;
+#[cfg(feature = "c11")]
+pub mod c11;
+#[cfg(feature = "c12")]
+pub mod c12;
+#[cfg(feature = "c13")]
+pub mod c13;
+#[cfg(feature = "c14")]
+pub mod c14;
+#[cfg(feature = "c15")]
+pub mod c15;
+#[cfg(feature = "c16")]
+pub mod c16;
+#[cfg(feature = "c17")]
+pub mod c17;
+#[cfg(feature = "c18")]
+pub mod c18;
+#[cfg(feature = "c19")]
+pub mod c19;
+#[cfg(feature = "c20")]
+pub mod c20;
 
